@@ -21,6 +21,7 @@ import z3
 W = {"i8": 8, "u8": 8, "i16": 16, "u16": 16, "i32": 32, "u32": 32, "i64": 64, "u64": 64, "isize": 64, "usize": 64,
      "i128": 128, "u128": 128}
 INT_TYPES = ["i8", "u8", "i16", "u16", "i32", "u32", "isize", "usize", "i64", "u64"]
+WIDE_TYPES = ["i128", "u128"]
 
 
 def signed(t):
@@ -159,6 +160,10 @@ def const_value(tok):
     m = re.match(r"^(-?\d+)_(\w+)$", t)
     if m:
         return IntV(z3.IntVal(int(m.group(1))), m.group(2))
+    m = re.match(r"^core::num::<impl (\w+)>::(MIN|MAX)$", t)
+    if m:
+        ty = m.group(1)
+        return IntV(z3.IntVal(tmin(ty) if m.group(2) == "MIN" else tmax(ty)), ty)
     m = re.match(r"^(\w+)::(MIN|MAX)$", t)
     if m:
         ty = m.group(1)
@@ -204,6 +209,8 @@ class Path:
         self.trace = []
         self.final_env = {}
         self.divs = {}
+        self.frames = []
+        self.dectext = None
 
     def clone(self):
         p = Path(self.ctx)
@@ -215,6 +222,8 @@ class Path:
         p.trace = list(self.trace)
         p.final_env = dict(self.final_env)
         p.divs = dict(self.divs)
+        p.frames = list(self.frames)
+        p.dectext = self.dectext
         return p
 
     def feasible(self, extra=None):
@@ -441,6 +450,26 @@ class Exec:
         if m:
             ctx.stubs_used.add("wrapping_add")
             return [(path, IntV(wrap_once(args[0].e + args[1].e, m.group(1), path), m.group(1)))]
+        if callee == "itoa::Buffer::new":
+            ctx.stubs_used.add("itoa::Buffer::new / format (trusted: yields the canonical decimal of its argument)")
+            return [(path, Obj("itoabuf"))]
+        m = re.match(r"^itoa::Buffer::format::<(\w+)>$", callee)
+        if m:
+            return [(path, Obj("dectext", value=args[1].e, ty=m.group(1)))]
+        if callee.endswith("repr::Repr::from_str") or callee == "Repr::from_str":
+            ctx.stubs_used.add("Repr::from_str (Ok: holds exactly the given text; or Err)")
+            t = args[0]
+            if not isinstance(t, Obj) or t.kind != "dectext":
+                raise Unsupported("Repr::from_str of something that is not an itoa text")
+            ok = path
+            err = path.clone()
+            ok.dectext = t.value
+            return [(ok, Obj("result", ok=True, payload=Obj("reprval"))), (err, Obj("result", ok=False, payload=None))]
+        m = re.match(r"^core::num::<impl (\w+)>::unsigned_abs$", callee)
+        if m:
+            ctx.stubs_used.add("unsigned_abs")
+            ty = m.group(1)
+            return [(path, IntV(ite(path, args[0].e < 0, -args[0].e, args[0].e), "u" + ty[1:]))]
         if callee.endswith("repr::Repr::with_capacity") or callee == "Repr::with_capacity":
             ctx.stubs_used.add("Repr::with_capacity (Ok: capacity max(16,n), len 0, exclusively owned; or Err)")
             n = args[0].e
@@ -536,6 +565,7 @@ class Exec:
             term = lines[-1]
             if term == "return;":
                 p.final_env[fn.arg_ty + "/" + fn.name.split("::")[-1]] = (fn, dict(fr.env))
+                p.frames = p.frames + [(fn, dict(fr.env))]
                 results.append((p, fr.env.get("_0")))
                 return
             if term == "unreachable;":
@@ -665,13 +695,26 @@ def encode_type(fns, lut, ty, nonzero=False, pin=None):
         if not ret.ok:
             ctx.paths.append({"kind": "Err (allocation refused)", "pc": p.pc})
             continue
-        # locate digits_count / curr by their debug names in the integer instance
-        infn, env = p.final_env[ty + "/into_repr"]
-        curr = env[infn.debug["curr"][0]].e
-        dc = env[infn.debug["digits_count"][0]].e
-        dcv = final_obligations(ctx, v, ty, p, curr, dc)
-        finals.append((p, dcv))
-        ctx.paths.append({"kind": "Ok", "pc": p.pc, "path": p})
+        # the innermost frame that wrote digits itself (an integer-writer instance), if any
+        writer = None
+        for (f, env) in p.frames:
+            if f.name.endswith("::into_repr") and "curr" in f.debug and "digits_count" in f.debug:
+                writer = (f, env)
+                break
+        if writer is not None:
+            infn, env = writer
+            curr = env[infn.debug["curr"][0]].e
+            dc = env[infn.debug["digits_count"][0]].e
+            inner_v = env["_1"].e
+            inner_ty = infn.arg_ty
+            dcv = final_obligations(ctx, inner_v, inner_ty, p, curr, dc)
+            p.oblige("the value formatted is the input value (no lossy cast on the way)", inner_v == v)
+            finals.append((p, dcv))
+        elif p.dectext is not None:
+            p.oblige("the text handed to Repr::from_str is the decimal text of the input", p.dectext == v)
+            finals.append((p, -1))
+        else:
+            raise Unsupported("Ok result that was neither written digit by digit nor produced by itoa")
     return ctx, v, finals
 
 
@@ -720,7 +763,8 @@ def final_obligations(ctx, v, ty, p, env_curr, digits_count):
             continue
         digs = bytes_[start:]
         rng = z3.And([z3.And(d >= 48, d <= 57) for d in digs])
-        val = z3.Sum([(digs[i] - 48) * (10 ** (L - 1 - i)) for i in range(L)])
+        terms = [(digs[i] - 48) * (10 ** (L - 1 - i)) for i in range(L)]
+        val = terms[0] if L == 1 else z3.Sum(terms)
         nolead = z3.Or(digs[0] != 48, L == 1)
         p.oblige("digits are '0'..'9' (%s)" % ("neg" if signflag else "nonneg"), z3.Implies(cond, rng))
         p.oblige("Horner value of the digits equals |n| (%s)" % ("neg" if signflag else "nonneg"), z3.Implies(cond, val == a))
